@@ -211,6 +211,412 @@ def _strip(c):
     return {k: v for k, v in c.items() if not k.startswith("_")}
 
 
+# ------------------------------------------------------------------ scale family (binding T, Trace_ClusteringScale)
+# Production-size layouts (257 .. 1.1 * 10^5 strictly increasing abscissae; up to n clusters, clusters of up to ~n
+# members).  The dense tab[s][k] of _table is O(n^2); here the oracle is evaluated only for the index pairs the result
+# itself mentions - (start of the cluster the code put point k-1 in, k) for k = 1..n-1 - in exact integer arithmetic
+# (floats are dyadic rationals; prefix sums make every centroid / average decision O(1)), merged with the label step
+# into one small code per point and run-length encoded.  TLC walks the encoded sequence (ScaleClause).
+S_EPS15 = 10 ** 15
+
+
+def _sx(shape, n, rs, par):
+    """Deterministic builder -> strictly increasing float64 abscissae (RandomState: a frozen stream, so a replay
+    file only has to name shape / n / rs / par)."""
+    r = np.random.RandomState((rs * 7919 + n) % (2 ** 31 - 1))
+    if shape == "even":                              # a + h k, exact in binary64
+        return par["a"] + par["h"] * np.arange(n, dtype=float)
+    if shape == "randgaps":
+        return par.get("a", 0.0) + np.cumsum(r.uniform(0.5, 1.5, n))
+    if shape == "groups":                            # tight groups (sizes 1..g or exactly g) separated by wider gaps
+        g, mode = par["g"], par["mode"]
+        start = np.zeros(n, dtype=bool)
+        if par.get("fixed"):
+            start[par.get("lead", 0)::g] = True
+        else:
+            sizes = r.randint(1, g + 1, n)
+            start[np.cumsum(sizes)[:-1][np.cumsum(sizes)[:-1] < n]] = True
+        start[0] = True
+        if mode == "dyadic":
+            intra, inter = np.full(n, 0.25), np.full(n, 1.75)
+        elif mode == "int":
+            intra, inter = np.full(n, 1.0), np.full(n, 7.0)
+        else:
+            intra, inter = r.uniform(0.1, 0.3, n), r.uniform(1.5, 2.5, n)
+        gaps = np.where(start, inter, intra)
+        gaps[0] = 0.0
+        return par.get("a", 0.0) + np.cumsum(gaps)
+    if shape == "geometric":                         # gaps grow by e^c over the layout: long clusters first, singletons last
+        k = np.arange(n, dtype=float)
+        return np.cumsum(np.exp(par["c"] * k / n) * r.uniform(0.8, 1.2, n))
+    if shape == "blobs":                             # K dense blobs of a few thousand points, far apart
+        K = par["K"]
+        w = r.uniform(0.5, 1.5, K)
+        sizes = np.maximum(1, np.floor(w / w.sum() * n).astype(int))
+        sizes[-1] += n - sizes.sum()
+        if sizes[-1] < 1:
+            sizes = np.full(K, n // K); sizes[-1] += n - sizes.sum()
+        gaps = r.uniform(0.5, 1.5, n)
+        far = 1.5 * sizes.max()
+        firsts = np.cumsum(sizes)[:-1]
+        gaps[firsts] = r.uniform(2.0, 3.0, len(firsts)) * far
+        gaps[0] = 0.0
+        return np.cumsum(gaps)
+    raise ValueError(shape)
+
+
+def _s_valid(x):
+    return len(x) >= 2 and bool(np.all(np.isfinite(x))) and bool(np.all(np.diff(x) > 0))
+
+
+def _exact_ints(x, as_int):
+    """x[k] = X[k] / D exactly (D a power of two; Python ints)."""
+    if as_int:
+        return [int(v) for v in x]
+    rat = [float(v).as_integer_ratio() for v in x]
+    D = max(d for _, d in rat)
+    return [p * (D // d) for p, d in rat]
+
+
+def _path_codes(X, t, link, labels):
+    """code (4 * step + decision) of the points 1..n-1 along the path the labels take, and the number of near
+    decisions.  decision: is dist / range >= t for the cluster s..k-1 (s = start of the run of equal labels that
+    contains k-1)?  near when |dist/range - t| <= rel * (t + max|x|/range), rel = 1e-12 for single / complete (as
+    _table) and 1e-12 + 2e-15 * m for centroid / average with m members (the code's running centroid is updated m
+    times, its sum has m terms: about 8 m eps)."""
+    n = len(X)
+    tq = Fr(t)
+    tn, td = tq.numerator, tq.denominator
+    Ls = X[-1] - X[0]
+    B = tn * Ls + max(abs(X[0]), abs(X[-1])) * td
+    mean = link in ("centroid", "average")
+    P = None
+    if mean:
+        P = [0] * (n + 1)
+        acc = 0
+        for k, v in enumerate(X):
+            P[k] = acc
+            acc += v
+        P[n] = acc
+    tL = tn * Ls
+    b1 = 1000 * B
+    codes = [0] * (n - 1)
+    near = 0
+    s = 0
+    for k in range(1, n):
+        if mean:
+            m = k - s
+            # centroid: |x_k - mean(members)|; average: mean |x_k - member| - the same number for increasing x
+            A = abs(m * X[k] - (P[k] - P[s])) * td - tL * m
+            lim = (1000 + 2 * m) * m * B
+        else:
+            A = (X[k] - (X[k - 1] if link == "single" else X[s])) * td - tL
+            lim = b1
+        if abs(A) * S_EPS15 <= lim:
+            dec = NEAR
+            near += 1
+        else:
+            dec = SPLIT if A > 0 else MERGE
+        d = labels[k] - labels[k - 1]
+        codes[k - 1] = (4 * (0 if d == 0 else (1 if d == 1 else 2))) + dec
+        if d != 0:
+            s = k
+    return codes, near
+
+
+def _encode(codes):
+    """Run-length encoding of the per-point codes: ({"codes", "ends"} with 1-based last points of the runs), or the
+    plain code list when that is shorter (every run of length 1)."""
+    c = np.asarray(codes, dtype=np.int64)
+    cut = np.nonzero(np.diff(c))[0]                  # run r ends at code index cut[r]
+    if 4 * (len(cut) + 1) >= len(c):
+        return {"codes": [int(v) for v in c]}
+    ends = np.append(cut, len(c) - 1) + 2            # code index j is point j + 2 (1-based)
+    return {"codes": [int(v) for v in c[np.append(cut, len(c) - 1)]], "ends": [int(v) for v in ends]}
+
+
+def _scale_call(link, x, t, as_int):
+    """The library call under the back-edge budget (quadratic in n, DESIGN 3.1) and the CPU watchdog.
+    -> (labels, None) | (None, (clause, detail))"""
+    from harness import monitor
+    n = len(x)
+    if as_int:
+        P = np.column_stack([np.asarray(x).astype(np.int64), _heights(n).astype(np.int64)])
+    else:
+        P = np.ascontiguousarray(np.column_stack([np.asarray(x, float), _heights(n)]))
+    out, v, _ = monitor.call(_fn(link), (P, t), budget=monitor.quad(n, 8), wall=120 + int(n * n / 2e7))
+    if out != "returned":
+        return None, ("terminates" if out in ("budget", "watchdog") else "returns", {"outcome": out, "error": v})
+    try:
+        return [int(q) for q in np.asarray(v).tolist()], None
+    except Exception as ex:
+        return None, ("returns", {"outcome": "unusable result", "error": repr(ex)[:200]})
+
+
+def _clip(v):
+    return max(-2 ** 30, min(2 ** 30, int(v)))
+
+
+def _scale_record(item):
+    cid, lay, t, link = item
+    x = _sx(lay["shape"], lay["n"], lay["rs"], lay["par"])
+    as_int = lay["dtype"] == "int64"
+    n = len(x)
+    got, err = _scale_call(link, x, t, as_int)
+    if err is not None:
+        return {"id": cid, "error": err}
+    rec = {"id": cid, "kind": "srule", "link": link, "n": n, "len": len(got), "first": _clip(got[0]) if got else -1,
+           "codes": [], "_near": 0, "_nontrivial": False, "_clusters": 0, "_maxsize": 0}
+    if len(got) != n:
+        return rec
+    codes, near = _path_codes(_exact_ints(x, as_int), t, link, got)
+    rec.update(_encode(codes))
+    lab = np.asarray(got, dtype=np.int64)
+    cuts = np.nonzero(np.diff(lab))[0]
+    sizes = np.diff(np.concatenate([[-1], cuts, [n - 1]]))
+    rec["_near"] = near
+    rec["_clusters"] = int(len(sizes))
+    rec["_maxsize"] = int(sizes.max())
+    # non-trivial: both kinds of decision were taken, or there are more clusters / members than any small input has
+    rec["_nontrivial"] = bool(len(sizes) >= 2 and (sizes.max() >= 2 or len(sizes) > 1000))
+    return rec
+
+
+def _scale_mono(item):
+    cid, lay, ts, link = item
+    x = _sx(lay["shape"], lay["n"], lay["rs"], lay["par"])
+    counts = []
+    for t in ts:
+        got, err = _scale_call(link, x, t, lay["dtype"] == "int64")
+        if err is not None or not got:
+            return {"id": cid, "error": err or ("returns", {"outcome": "empty"})}
+        counts.append(_clip(got[-1]) + 1)
+    return {"id": cid, "kind": "mono", "counts": counts}
+
+
+def _scale_worker(item):
+    return _scale_mono(item[1:]) if item[0] == "mono" else _scale_record(item[1:])
+
+
+def _scale_layouts(ctx):
+    """-> list of layouts {shape, n, rs, par, dtype, ts: {link: [t...]}, mono: [t...]} (thresholds derived from the
+    layout: tiny = every point its own cluster; mid = between the tight and the wide gaps; frac = clusters that span
+    that fraction of the range)."""
+    from harness import scale
+    rng = ctx.rng
+    sizes = scale.sizes(ctx, lo=250, hi=110000, k_quick=3, k_thorough=8)
+    nmax = sizes[-1]
+    out = []
+
+    def lay(shape, n, par, dtype="float"):
+        d = {"shape": shape, "n": n, "rs": rng.randrange(1, 10 ** 6), "par": par, "dtype": dtype, "ts": {}, "mono": []}
+        x = _sx(shape, n, d["rs"], par)
+        assert _s_valid(x), (shape, n, par)
+        if dtype == "int64":
+            assert np.all(x == np.round(x))
+        out.append(d)
+        return d, x
+
+    def flat(n, big, kind=None):
+        """even or random gaps; tiny threshold (n clusters) and long clusters (a fraction of the layout each)"""
+        if (kind or rng.choice(["even", "randgaps"])) == "even":
+            h = rng.choice([1.0, 0.25, 3.0])
+            a = rng.choice([0.0, 100.0, -(n // 2) * h, 1.6e9])
+            dt = "int64" if (h != 0.25 and rng.random() < 0.5) else "float"
+            d, x = lay("even", n, {"a": a, "h": h}, dt)
+        else:
+            d, x = lay("randgaps", n, {"a": rng.choice([0.0, -250.0, 1.0e6])})
+        L = float(x[-1] - x[0])
+        gaps = np.diff(x)
+        tiny = 0.25 * float(gaps.min()) / L
+        # average linkage does sum(cluster sizes) ~ frac * n^2 element operations: about 10^9 (quick) / 3 * 10^9 of them
+        w = rng.uniform(5.0e8, 1.2e9) if ctx.quick else rng.uniform(2.0e9, 4.0e9)
+        fa = min(0.45, w / float(n) ** 2) if not big else rng.uniform(0.45, 0.49)
+        fc = rng.uniform(0.2, 0.47)
+        for link in LINKS:
+            d["ts"][link] = [tiny]
+        d["ts"]["complete"].append(fc)                # clusters of fc * n points
+        d["ts"]["centroid"].append(fc)                # clusters of 2 fc * n points
+        d["ts"]["average"].append(fa)
+        if d["shape"] == "randgaps":
+            d["ts"]["single"].append(float(np.median(gaps)) / L)     # half of the gaps split (one harvested near-tie)
+        if not ctx.quick:
+            f2 = rng.uniform(30.0, 3000.0) / n        # clusters of 30 .. 6000 members
+            for link in ("complete", "centroid", "average"):
+                d["ts"][link].append(f2)
+        d["mono"] = sorted({tiny, 3.0 / n, fa, fc, 1.0})
+        return d
+
+    def groups(n, gs, extra=False, mode=None, dtype=None):
+        g = rng.choice(gs)
+        mode = mode or rng.choice(["dyadic", "int", "float"])
+        par = {"g": g, "mode": mode, "a": rng.choice([0.0, 1000.0, -3.0 * n, 1.6e9])}
+        if rng.random() < 0.35:
+            par.update({"fixed": True, "lead": rng.randrange(0, g)})
+        d, x = lay("groups", n, par, dtype or ("int64" if mode == "int" and rng.random() < 0.6 else "float"))
+        L = float(x[-1] - x[0])
+        mid = {"dyadic": 1.1, "int": 4.3, "float": 0.9}[mode] / L      # between the tight and the wide gaps, off the lattice of distances
+        wide = mid * rng.uniform(2.0, 9.0)            # several groups per cluster for complete / centroid / average
+        for link in LINKS:
+            d["ts"][link] = [mid] + ([wide] if extra else [])
+        d["mono"] = sorted({0.02 / L, mid, wide, 4.1 * wide, 40.0 * wide})
+        return d
+
+    def geometric(n):
+        d, x = lay("geometric", n, {"c": rng.uniform(5.0, 12.0)})
+        ts = [rng.choice([0.01, 0.003]), rng.uniform(1.0, 30.0) / n]
+        for link in LINKS:
+            d["ts"][link] = list(ts) if not ctx.quick else [ts[LINKS.index(link) % 2]]
+        d["mono"] = sorted(set(ts + [1e-7, 0.05, 0.4]))
+        return d
+
+    def blobs(n):
+        K = rng.randint(max(4, int(n * n / 1.2e9) + 1), max(6, int(n * n / 1.2e9) + 16))
+        K = min(K, n // 3)
+        d, x = lay("blobs", n, {"K": K})
+        L = float(x[-1] - x[0])
+        gaps = np.diff(x)
+        far = np.nonzero(gaps > 1.5)[0]
+        b = np.concatenate([[0], far + 1, [n]])
+        span = max(float(x[b[j + 1] - 1] - x[b[j]]) for j in range(len(b) - 1))
+        whole = 1.3 * span / L                       # every blob is one cluster for all four linkages
+        inner = rng.uniform(20.0, 200.0) / L         # complete / centroid / average cut the blobs into short runs
+        for link in LINKS:
+            d["ts"][link] = [whole] if ctx.quick else [whole, inner]
+        d["mono"] = sorted({whole, inner, 0.1 / L, 1.6 / L, 1.0})
+        return d
+
+    if ctx.quick:
+        flat(nmax, False)                             # > 65536 singleton clusters; clusters of 10^4 .. 9 * 10^4 members
+        groups(nmax, [2, 3])                          # > 32768 clusters of 1..3 members
+        blobs(nmax)
+        geometric(sizes[1])
+        groups(sizes[1], [3, 12, 40], mode="int", dtype="int64")
+        groups(sizes[0], [5, 12], extra=True)
+        flat(sizes[0], False)
+        flat(rng.randint(37000, 46000), True)         # average linkage: one cluster beyond 32768 members
+    else:
+        for n in sizes:
+            flat(n, False, "even")
+            flat(n, False, "randgaps")
+            groups(n, [2, 3], True)
+            groups(n, [5, 12, 40], True)
+            geometric(n)
+            blobs(n)
+        for _ in range(2):
+            flat(rng.randint(37000, 46000), True)
+        flat(rng.randint(70000, 80000), True)         # average linkage: one cluster beyond 65536 members
+        groups(nmax, [2], False)
+        groups(nmax, [2, 3], True, mode="int", dtype="int64")
+    return sizes, out
+
+
+S_GOOD = {"kind": "srule", "link": "complete", "n": 9, "len": 9, "first": 0,      # labels 0 0 0 1 1 1 2 2 2
+          "codes": [1, 6, 1, 6, 1], "ends": [3, 4, 6, 7, 9]}
+S_RAW = {"kind": "srule", "link": "single", "n": 5, "len": 5, "first": 0, "codes": [1, 6, 7, 3]}
+
+
+def _scale_selftests():
+    return [(S_GOOD, "ok"), (S_RAW, "ok"), (STATIC_MONO, "ok"),
+            (dict(S_GOOD, first=-32768), "labels-start-at-0"),
+            (dict(S_GOOD, len=8), "one-label-per-point"),
+            (dict(S_GOOD, codes=[1, 6, 1, 10, 1]), "contiguous"),               # a label step of -65535 (or 2, or -1)
+            (dict(S_GOOD, codes=[1, 6, 1, 2, 1]), "rule(complete)"),            # a sure split that was merged
+            (dict(S_GOOD, codes=[1, 6, 5, 6, 1]), "rule(complete)"),            # a sure merge run that was split
+            (dict(S_RAW, codes=[1, 6, 7, 5]), "rule(single)"),
+            (dict(S_GOOD, ends=[3, 4, 6, 7, 8]), "malformed-case"),             # the encoding must cover 2..n
+            (dict(STATIC_MONO, counts=[4, 2, 3, 1]), "monotone-in-t")]
+
+
+def _scale_detail(lay, t, link, verdict):
+    """For a reader of the replay file: the labels around the offending point (one more call, violations only)."""
+    d = {"verdict": verdict, "n": lay["n"]}
+    try:
+        if len(verdict) >= 2 and isinstance(verdict[1], int) and verdict[0] not in ("one-label-per-point", "labels-start-at-0"):
+            x = _sx(lay["shape"], lay["n"], lay["rs"], lay["par"])
+            got, _ = _scale_call(link, x, t, lay["dtype"] == "int64")
+            k = verdict[1]
+            lo = max(0, k - 3)
+            d.update({"point": k, "labels[%d:%d]" % (lo, k + 3): got[lo:k + 3], "x[%d:%d]" % (lo, k + 3): [float(v) for v in x[lo:k + 3]],
+                      "range": float(x[-1] - x[0]), "last_label": got[-1]})
+    except Exception:
+        pass
+    return d
+
+
+def _scale_family(ctx):
+    import time
+    t0 = time.time()
+    sizes, lays = _scale_layouts(ctx)
+    items, meta = [], {}
+    for li, lay in enumerate(lays):
+        ref = {k: lay[k] for k in ("shape", "n", "rs", "par", "dtype")}
+        for link in LINKS:
+            for ti, t in enumerate(lay["ts"][link]):
+                cid = "s%d-%s-%d" % (li, link, ti)
+                # cost estimate (for the order of dispatch only): average linkage is n * m
+                cost = lay["n"] * (lay["n"] * min(1.0, 2 * t) if link == "average" else 1.0)
+                items.append((cost, ("rule", cid, ref, t, link)))
+                meta[cid] = {"kind": "scale", "layout": ref, "t": t, "link": link}
+        for link in ("single", "complete"):
+            cid = "sm%d-%s" % (li, link)
+            items.append((5.0 * lay["n"], ("mono", cid, ref, lay["mono"], link)))
+            meta[cid] = {"kind": "scale-mono", "layout": ref, "ts": lay["mono"], "link": link}
+    items = [it for _, it in sorted(items, key=lambda p: -p[0])]
+    res = par.pmap(_scale_worker, items, chunksize=1)
+    cases = []
+    st = {"sizes": sizes, "layouts": len(lays), "rule_cases": 0, "mono_cases": 0, "near_decisions": 0, "max_clusters": 0,
+          "max_cluster_size": 0, "cases_with_more_than_32768_clusters": 0, "cases_with_more_than_65536_clusters": 0,
+          "cases_with_a_cluster_of_more_than_4096_points": 0, "cases_with_a_cluster_of_more_than_32768_points": 0,
+          "by_shape": {}}
+    for r in res:
+        m = meta[r["id"]]
+        if "error" in r:
+            ctx.violation(r["error"][0], m, r["error"][1])
+            continue
+        cases.append(r)
+        if r["kind"] == "mono":
+            st["mono_cases"] += 1
+            ctx.count(("S-mono", m["layout"], m["link"]), len(set(r["counts"])) > 1)
+            continue
+        st["rule_cases"] += 1
+        st["near_decisions"] += r["_near"]
+        st["max_clusters"] = max(st["max_clusters"], r["_clusters"])
+        st["max_cluster_size"] = max(st["max_cluster_size"], r["_maxsize"])
+        st["cases_with_more_than_32768_clusters"] += r["_clusters"] > 32768
+        st["cases_with_more_than_65536_clusters"] += r["_clusters"] > 65536
+        st["cases_with_a_cluster_of_more_than_4096_points"] += r["_maxsize"] > 4096
+        st["cases_with_a_cluster_of_more_than_32768_points"] += r["_maxsize"] > 32768
+        sh = "%s/%s" % (m["layout"]["shape"], m["layout"]["dtype"])
+        st["by_shape"][sh] = st["by_shape"].get(sh, 0) + 1
+        # a case with a near decision stays judged (near pins nothing at that point only) but is not counted as non-trivial
+        ctx.count(("S", m["layout"], m["t"], m["link"]), r["_nontrivial"] and r["_near"] == 0)
+    # the JSON that reaches one TLC run stays modest: chunks of at most ~2.5 MB
+    send = [_strip(c) for c in cases]
+    weight = [len(c.get("codes", ())) * 3 + len(c.get("ends", ())) * 7 + 200 for c in send]
+    st["json_bytes_estimate"] = int(sum(weight))
+    nch = max(1, -(-int(sum(weight)) // 2500000))
+    order = sorted(range(len(send)), key=lambda j: -weight[j])
+    send = [send[j] for c in range(nch) for j in order[c::nch]]          # contiguous slices of similar weight
+    st["tlc_runs"] = nch
+    rej = ctx.trace("Trace_ClusteringScale", send, selftest=_scale_selftests(), chunk=max(1, -(-(len(send) + 11) // nch)))
+    for cid, vs in rej.items():
+        m = meta[cid]
+        if m["kind"] == "scale":
+            ctx.violation(vs[0][0], m, _scale_detail(m["layout"], m["t"], m["link"], vs[0]))
+        else:
+            ctx.violation(vs[0][0], m, {"verdict": vs[0]})
+    st["wall_s"] = round(time.time() - t0, 1)
+    ctx.note("scale family: all clauses of the property are judged at production size (one-label-per-point, labels-start-at-0, "
+             "contiguous, rule(<linkage>) along the returned path, monotone-in-t for single / complete); an exact tie "
+             "distance == t is only exercised on the small grid layouts (G): on float layouts it is 'near' and pins nothing")
+    ctx.extra["scale"] = st
+    ex = next((c for c in cases if c["kind"] == "srule" and c["_nontrivial"] and "ends" in c and 8 <= len(c["ends"]) <= 400), None)
+    if ex is not None:
+        ctx.sample({"binding": "T-scale", "call": meta[ex["id"]], "case": _strip(ex),
+                    "clusters": ex["_clusters"], "largest_cluster": ex["_maxsize"]}, limit=6)
+
+
 def run(ctx):
     ctx.rule = ("G: every strictly increasing integer layout in 0..G with 2..NMax points x every t = j/d x 4 linkages, "
                 "generated by TLC from Clustering.tla (checked there against the declarative NewCluster rule) and replayed "
@@ -218,11 +624,20 @@ def run(ctx):
                 "blobs, growing gaps, integer-valued) x 4 thresholds (one harvested from an observed gap) x 4 linkages "
                 "judged by Trace_Clustering on Fraction decision tables; cluster counts of single/complete per layout for "
                 "increasing t.  non-trivial: at least one multi-member cluster or an exact tie distance == t (float layouts: a "
-                "multi-member cluster and no decision within noise of t; count sequences: the count actually changes)")
+                "multi-member cluster and no decision within noise of t; count sequences: the count actually changes).  "
+                "scale: production-size layouts (sizes from harness/scale.py just above 256 .. 10^5, always one beyond 10^5; "
+                "even / random-gap / tight-group / geometric / blob layouts, float64 and int64, offsets up to 1.6e9) x 4 linkages "
+                "x thresholds from 'every point its own cluster' (more than 65536 clusters) to clusters of up to 0.98 n members, "
+                "called under a quadratic back-edge budget; the decision table is evaluated exactly only along the path the "
+                "returned labels take, run-length encoded and judged by Trace_ClusteringScale (same clauses as TableClause), "
+                "cluster counts of single / complete for increasing t by MonoClause (scale non-trivial: at least two clusters, a "
+                "multi-member cluster or more than 1000 clusters, and no near decision on the path)")
     ctx.assumptions += [
         "grid domain: one correctly rounded division of small integers compared with fl(p/q) decides like the rationals",
         "centroid linkage with current cluster size >= 2 and distance/range == t exactly is ambiguous: both label vectors allowed",
         "float layouts: a decision whose exact ratio is within 1e-12 * (t + max|x|/range) of t is 'near': either side allowed",
+        "scale family: centroid / average decisions of a cluster with m members are 'near' within (1e-12 + 2e-15 m) * (t + max|x|/range) "
+        "(m incremental centroid updates / an m-term sum: about 8 m eps); mean |x_k - member| equals |x_k - centroid| for increasing x",
         "TLC, SANY, CommunityModules, CPython fractions, NumPy are trusted"]
     acts = ("SingleStep", "CompleteStep", "CentroidMerge", "CentroidSplit", "AverageStep", "Return")
     # ---- M
@@ -302,6 +717,8 @@ def run(ctx):
     ex = next((c for c in cases if c["_nontrivial"] and not c["_near"] and 5 <= c["n"] <= 7), None)
     if ex is not None:
         ctx.sample({"binding": "T", "call": meta[ex["id"]], "case": _strip(ex)})
+    # ---- T at production size
+    _scale_family(ctx)
 
 
 def replay(ctx, obj):
@@ -310,6 +727,18 @@ def replay(ctx, obj):
         bad, _ = _replay_group(c["group"])
         for clause, detail in bad:
             ctx.violation(clause, c, detail)
+        return
+    if c["kind"] in ("scale", "scale-mono"):
+        lay = c["layout"]
+        if not _s_valid(_sx(lay["shape"], lay["n"], lay["rs"], lay["par"])):
+            raise ValueError("replay layout is outside the property's quantifier")
+        r = _scale_mono(("replay", lay, c["ts"], c["link"])) if c["kind"] == "scale-mono" else _scale_record(("replay", lay, c["t"], c["link"]))
+        if "error" in r:
+            ctx.violation(r["error"][0], c, r["error"][1])
+            return
+        rej = ctx.trace("Trace_ClusteringScale", [_strip(r)])
+        for cid, vs in rej.items():
+            ctx.violation(vs[0][0], c, _scale_detail(lay, c["t"], c["link"], vs[0]) if c["kind"] == "scale" else {"verdict": vs[0]})
         return
     if c["kind"] == "mono":
         m = _mono_counts(("replay", c["x"], c["ts"], c["link"]))
